@@ -520,7 +520,7 @@ pub fn replay(scen: &'static Scenario, path: &[Action], verbose: bool, hook: Opt
         if !acts.contains(a) {
             r.all_enabled = false;
             if verbose {
-                r.trace.push(format!("step {}: {:?} NOT ENABLED", k + 1, a));
+                r.trace.push(format!("step {}: {:?} NOT ENABLED (enabled: {:?})", k + 1, a, acts));
             }
             break;
         }
